@@ -6,7 +6,10 @@ from . import ops
 from .snap import snap, is_busy
 
 KINDS = ('Angle', 'Epoch', 'Interpolation', 'CurveFitting', 'Earth', 'Ellipsoid', 'Minor', 'list', 'tuple')
-HSTRIDE = 64
+# handle ids: op*hstride + [0, rslots) = results of the op; op*hstride + [rslots, hstride) = objects built
+# inline for the op.  Both numbers are recorded in every plan (old replay files: 64 / 32).
+HSTRIDE = 512
+RSLOTS = 64
 CONST_HANDLES = {1: ('Epoch', 'JDE2000'), 2: ('Earth', 'IAU76'), 3: ('Earth', 'WGS84')}
 
 
@@ -115,6 +118,12 @@ class Pool(object):
             if inf.xlock:
                 continue
             s = snap(inf.obj)
+            if is_busy(inf.snap):
+                # the model snapshot was taken while a repr of the same lists was running on this
+                # thread (e.g. a copy made inside a pre-empted __repr__): adopt the first clean one
+                if not is_busy(s):
+                    inf.snap = s
+                continue
             if s != inf.snap and not is_busy(s):
                 bad.append((inf, s))
         return bad
@@ -143,8 +152,9 @@ def reachable(values):
 class Builder(object):
     """Turns argument expressions into objects for ONE operation."""
 
-    def __init__(self, pool, op, clones=None):
+    def __init__(self, pool, op, clones=None, hstride=HSTRIDE, rslots=RSLOTS):
         self.pool, self.op = pool, op
+        self.hs, self.rs = hstride, rslots
         self.clones = clones
         self.fresh = []   # (hid, obj) registered by this build
         self.recv_obj = None
@@ -196,7 +206,7 @@ class Builder(object):
         raise ValueError('bad expr %r' % (e,))
 
     def _reg(self, slot, o):
-        hid = self.op['id'] * HSTRIDE + 32 + slot
+        hid = self.op['id'] * self.hs + self.rs + slot
         self.pool.register(hid, o, self.op['task'], born=self.op['id'])
         self.fresh.append((hid, o))
 
